@@ -5,22 +5,6 @@ import Blue.Proofs.TupleString
 namespace Blue.TupleKey1
 open Blue.TupleKey2
 
-def bits7 (d : Nat) : List Nat := [d / 64 % 2, d / 32 % 2, d / 16 % 2, d / 8 % 2, d / 4 % 2, d / 2 % 2, d % 2]
-
-/-- the data bits of the chunks, concatenated -/
-def decBits (chunks : List Nat) : List Nat := chunks.flatMap (fun b => bits7 (b / 2))
-
-def byteOf (l : List Nat) : Nat := l.foldl (fun acc b => acc * 2 + b) 0
-
-/-- whole bytes out of a bit string; a tail of fewer than eight bits is dropped -/
-def group8 : Nat → List Nat → List Nat
-  | 0, _ => []
-  | f + 1, l => if 8 ≤ l.length then byteOf (l.take 8) :: group8 f (l.drop 8) else []
-
-/-- `impl Element for String :: parse_from` (before the UTF-8 check) -/
-def decString (enc : List Nat) : List Nat :=
-  if enc.length = 1 then [] else group8 ((decBits enc).length + 1) (decBits enc)
-
 theorem bits7_val7 (l : List Nat) (hb : Bits l) (hl : l.length ≤ 7) :
     bits7 (val7 l 7) = l ++ List.replicate (7 - l.length) 0 := by
   have bit : ∀ b ∈ l, b < 2 := hb
